@@ -257,7 +257,7 @@ impl Prop for C12 {
         ]
     }
     fn random_cases(tier: Tier) -> u64 {
-        tier.pick(8_000, 600_000)
+        tier.pick(30_000, 600_000)
     }
     fn strategy(tier: Tier) -> BoxedStrategy<Case> {
         let max_ops = tier.pick(15usize, 40);
@@ -689,7 +689,7 @@ impl Prop for C12 {
                         .map(|i| {
                             let fmt = FORMATS[(r.next() % 9) as usize];
                             let (tw, th) = (8usize << (r.next() % 2), 8usize << (r.next() % 2));
-                            Tex { name: format!("tex{i}"), w: tw, h: th, fmt, payload: r.bytes(fmt.payload_len(tw, th)) }
+                            Tex { name: format!("tex{i}"), w: tw, h: th, fmt, payload: r.bytes(fmt.payload_len(tw, th)), mip_tail: Vec::new() }
                         })
                         .collect();
                     let image = match container % 4 {
